@@ -86,6 +86,22 @@ def handler(st, opts):
                 elif not torch.equal(out, exp):
                     problems.append(P("value", "forward on integer parameters differs from the model (max |diff| %g, %s)" % (
                         (out - exp).abs().max().item(), dtn)))
+            # (c) the layer converted as a torch module (.double() / .float()): it is still the dense affine map of its
+            #     (converted) parameters - "any dtype" includes a dtype reached by conversion
+            try:
+                other = torch.float32 if dt == torch.float64 else torch.float64
+                layer2 = layer.to(other)
+                x2 = torch.randn(bsh + size_in, dtype=other)
+                out2 = layer2(x2)
+                W2 = project.dense([c.detach() for c in layer2.cores])
+                ref2 = torch.tensordot(x2, W2, dims=(list(range(nb, nb + d)), list(range(d, 2 * d)))) + layer2.bias.detach()
+                tol2 = 1e-10 if other == torch.float64 else 2e-4
+                if out2.dtype != other:
+                    problems.append(P("dtype", "after .to(%s) forward returns %s" % (other, out2.dtype), {"init": init}))
+                elif list(out2.shape) != list(ref2.shape) or (out2.detach() - ref2).abs().max().item() > tol2 * max(1.0, ref2.abs().max().item()):
+                    problems.append(P("value", "forward differs from W.x+b after the layer was converted to %s" % other, {"init": init}))
+            except Exception as e:  # noqa
+                problems.append(P("exception", "forward after module conversion raised %s: %s" % (type(e).__name__, str(e)[:200]), {"exc": type(e).__name__, "phase": "converted"}))
     return {"problems": problems, "stats": stats, "sample": {"size_in": size_in, "size_out": size_out, "rank": rank, "batch": bsh}}
 
 
